@@ -158,6 +158,10 @@ def build(seed: int, only=None):
     add(("union_grouped", "right"), ["ValueError"], [gstmt, dict(id="al", op="alias", src=tid), dict(id=oid, op="union", src="al", right="grp")])
     add(("union_grouped", "both"), ["ValueError"], [gstmt, dict(id="al", op="alias", src=tid), dict(id="grp_r", op="group_by", src="al", cols=[{"col": ["al", name_i]}]),
                                                     dict(id=oid, op="union", src="grp", right="grp_r")])
+    add(("union_no_common_type", "int_string"), ["TypeError", "DataTypeError"],
+        [dict(id="al3", op="alias", src=tid), dict(id="ls", op="select", src=tid, cols=[good]),
+         dict(id="rm", op="mutate", src="al3", cols=[[name_i, {"cast": {"col": ["al3", name_i]}, "to": "string"}]]), dict(id="rs", op="select", src="rm", cols=[{"c": name_i}]),
+         dict(id=oid, op="union", src="ls", right="rs")])
     add(("union_different_columns", "verb"), ["ValueError"], [other, dict(id=oid, op="union", src=tid, right="oth")])
     # … also when one side shows every column of the other plus one more
     add(("union_different_columns", "right_superset"), ["ValueError"],
